@@ -49,7 +49,22 @@ class Model(BaseModel):
                 item = ("sym", "ci_item@%s:bb%d" % (M.short_name(ex.fn.name), bb))
                 # remember which cursor was advanced
                 path.events.append(("cursor-next", bb, S.vstr(it), it))
-                return [(none(), None), (some(item), None)]
+                # after `next()` returned Some((i, c)) the cursor's offset() is i + len_utf8(c) (relative to the same slice)
+                after = ("add", ("field", item, "0"), ("app", "len_utf8", (("field", item, "1"),)))
+                okey = ("loc", ("sym", "__ci_offset__:" + S.vstr(it)), ())
+                return [(none(), None), (some(item), None, [(okey, after)])]
+        if re.search(r"str::CharIndices::<..>::offset$|str::CharIndices::offset$|CharIndices<'_>>::offset$", name) and args:
+            it = args[0]
+            n = 0
+            while it[0] == "ref" and n < 6:
+                inner = ex.read_loc(path, it[1])
+                if inner[0] != "ref":
+                    break
+                it = inner
+                n += 1
+            v = path.heap.get((("sym", "__ci_offset__:" + S.vstr(it)), ()))
+            if v is not None:
+                return [(v, None)]
         if re.search(r"box_assume_init_into_vec_unsafe", name):
             for e in reversed(path.events):
                 if e[0] == "write" and e[4][0] == "array":
